@@ -25,7 +25,7 @@ done
 (cd harness && cp /repo/go.sum . 2>/dev/null; go build -o harness .)
 # 3. translator validation: the translator's output extracted to OCaml, and a harness that calls
 #    the real pool code through the verif-tagged hooks (a failure here only disables that step)
-for k in Pool:pool Locks:lock IntPool:intpool BitSet:bitset Paged:paged; do
+for k in Pool:pool Locks:lock IntPool:intpool BitSet:bitset Paged:paged Res:res; do
   E=${k%%:*}; n=${k##*:}
   (cd ocaml && rm -f tvd_$n gm_$n.ml gm_$n.mli \
      && timeout 600 coqc -Q ../coq/theories Arche ../coq/theories/Extract/ExtractGo$E.v >/dev/null 2>&1 \
